@@ -3,7 +3,9 @@
    integer arithmetic); it is compared bit for bit with the implementation on every run.  Statements only;
    proofs are in Proofs/Fl64_proofs.v, Sort_by_proofs.v, Relabel_check_proofs.v, Relabel_ungroup_proofs.v,
    Relabel_total_proofs.v, Fl64_mono_proofs.v, Relabel_plain_proofs.v, Relabel_plain2_proofs.v,
-   Relabel_renumber_proofs.v, Relabel_guard_proofs.v.
+   Relabel_renumber_proofs.v, Relabel_guard_proofs.v, Relabel_sparse_proofs.v, Fl64_err_proofs.v,
+   Relabel_spread_proofs.v, Relabel_block_proofs.v, Relabel_adjbisect_proofs.v,
+   Relabel_widespread_proofs.v, Relabel_levels_proofs.v.
 
    [Spec orig keys adj ins] is the property's postcondition for one call (Model/Relabel.v): adjustments name
    existing rows once each with finite values; existing rows keep their order (strictly where they were
@@ -16,7 +18,10 @@ Require Import Grist.Lib.Fl64 Grist.Model.Relabel.
 Require Import Grist.Proofs.Fl64_proofs Grist.Proofs.Fl64_mono_proofs Grist.Proofs.Relabel_check_proofs
                Grist.Proofs.Relabel_ungroup_proofs Grist.Proofs.Relabel_total_proofs
                Grist.Proofs.Relabel_plain_proofs Grist.Proofs.Relabel_plain2_proofs
-               Grist.Proofs.Relabel_renumber_proofs Grist.Proofs.Relabel_guard_proofs.
+               Grist.Proofs.Relabel_renumber_proofs Grist.Proofs.Relabel_guard_proofs
+               Grist.Proofs.Relabel_sparse_proofs Grist.Proofs.Fl64_err_proofs Grist.Proofs.Relabel_spread_proofs
+               Grist.Proofs.Relabel_block_proofs Grist.Proofs.Relabel_adjbisect_proofs
+               Grist.Proofs.Relabel_widespread_proofs Grist.Proofs.Relabel_levels_proofs.
 Open Scope Z_scope.
 
 (* ---- 1. the certified checker: for ALL inputs and ALL candidate results, acceptance implies the
@@ -154,6 +159,79 @@ Theorem C20_first_assert_guard_partial : forall orig prev sb ub ue c,
   c <= count_range orig (mkwl [] (sl_update prev (get_range b e c))) b e.
 Proof. exact first_assert_guard. Qed.
 
+(* Further pieces for the partial renumbering path, each for all inputs.
+   (P-a) _adjust_range's new keys: in an aligned block of 2^i doubles of spacing 2^g inside one binade,
+   [rb, re) with rb = A * 2^g and re = rb + 2^i * 2^g, the c keys that get_range spreads are strictly increasing and
+   strictly inside (rb, re), provided the block is sparse enough for K = c + 1 ([sparse_enough i K]).  Three
+   roundings (step, step * k, rb + step * k) are accounted for; ties-to-even is why "one double apart" would not do. *)
+Theorem C20_spread_keys_strict_partial : forall g A i c,
+  0 <= g -> 0 <= A -> 1 <= i -> 1 <= c ->
+  g = 0 \/ 2 ^ (52 + g) <= A * 2 ^ g ->
+  A * 2 ^ g + 2 ^ i * 2 ^ g <= 2 ^ (53 + g) -> A * 2 ^ g + 2 ^ i * 2 ^ g < UOVER ->
+  sparse_enough i (c + 1) ->
+  StronglySorted Flt (FFin false (A * 2 ^ g) ::
+                      get_range (FFin false (A * 2 ^ g)) (FFin false (A * 2 ^ g + 2 ^ i * 2 ^ g)) c ++
+                      [FFin false (A * 2 ^ g + 2 ^ i * 2 ^ g)]).
+Proof. intros g A i c Hg HA Hi Hc Hlo Hhi Hov (T1 & T2 & T3). apply spread_strict; assumption. Qed.
+(* (P-b) the density test of _find_sparse_enough_range implies that condition: at every level 2 <= i < 64, with
+   either threshold sequence (the float powers 1.14^i, 1.3^i as the loop computes them; table checked by
+   computation), "count < thresh" gives sparse_enough i (count + 1).  (Level 0 admits no count >= 1; level 1 admits
+   count = 1 only, the block of two doubles.) *)
+Theorem C20_density_test_suffices : forall (i : nat) frac c,
+  (2 <= i < 64)%nat -> frac = f114 \/ frac = f130 -> 1 <= c < 2 ^ 53 ->
+  flt (of_Z c) (thr frac i) = true -> sparse_enough (Z.of_nat i) (c + 1).
+Proof. exact level_dense. Qed.
+(* (P-c) _find_sparse_enough_range as a search: if no level raises (range_around_float does not overflow, every
+   range counts at least one key) and some level j < 64 passes "end <= rend and count < 1.3^j", a range is
+   returned, and it is a level's range that passed the test with one of the two threshold sequences. *)
+Theorem C20_find_sparse_finds : forall orig w b e (j : nat), (j < 64)%nat ->
+  (forall a, (a < 64)%nat -> level_passes orig w b (Z.of_nat a) = true) ->
+  level_ok orig w b e (thr f130 j) (Z.of_nat j) = true ->
+  exists r a frac, (a < 64)%nat /\ (frac = f114 \/ frac = f130) /\
+    find_sparse_enough_range orig w b e = Ok r /\
+    range_around_float b (Z.of_nat a) = Ok r /\
+    level_ok orig w b e (thr frac a) (Z.of_nat a) = true.
+Proof. exact find_sparse_finds. Qed.
+
+(* (P-a') with range_around_float: at a level 1 <= i <= 52 around a positive double u the range is an aligned block
+   of 2^i doubles inside u's binade that contains u, and the keys spread over it are strictly increasing and
+   strictly inside it. *)
+Theorem C20_adjust_range_keys_strict_partial : forall u i c,
+  0 < u -> 2 * u < UOVER -> 1 <= i <= 52 -> 1 <= c -> sparse_enough i (c + 1) ->
+  exists rb re, range_around u i = Some (FFin false rb, FFin false re) /\ rb <= u < re /\
+    StronglySorted Flt (FFin false rb :: get_range (FFin false rb) (FFin false re) c ++ [FFin false re]).
+Proof. exact adjust_range_keys_strict. Qed.
+(* (P-a'') ... and at EVERY level 1 <= i < 64, around every double 0 <= u < 2^1012: whenever the number of keys c
+   passed the density test of the level ("c < thresh", either threshold sequence), range_around_float returns a
+   range that contains u and the c keys that _adjust_range spreads over it are strictly increasing and strictly
+   inside it.  (Levels 2..52 around u > 0: blocks inside one binade, fine analysis of the three roundings; level
+   1: the block of two doubles; levels >= 53 and everything around 0.0: ranges (0, 2^T), by error bounds.) *)
+Theorem C20_levels_keys_strict_partial : forall u (i : nat) frac c,
+  0 <= u < 2 ^ 2086 -> (0 < u -> u mod 2 ^ ulp_exp u = 0) -> (1 <= i < 64)%nat -> frac = f114 \/ frac = f130 ->
+  1 <= c < 2 ^ 53 -> flt (of_Z c) (thr frac i) = true ->
+  exists rb re, range_around u (Z.of_nat i) = Some (FFin false rb, FFin false re) /\ rb <= u < re /\
+    StronglySorted Flt (FFin false rb :: get_range (FFin false rb) (FFin false re) c ++ [FFin false re]).
+Proof. exact levels_keys_strict. Qed.
+(* (P-d) _adj_bisect_key_left is exact -- it returns the number of rows of the adjusted list V below the key --
+   whenever the adjustments are sorted by index, V is the existing list with them applied, both lists are sorted,
+   and NOT (the last adjusted row below the key had an original key >= the key and the next row is unadjusted).
+   (That excluded configuration is the only way the shortcut of _adj_bisect_key_left can miscount.) *)
+Theorem C20_adj_bisect_exact_partial : forall (orig V : list fl) (al : list (Z * fl)) (inss : list fl) (q : fl),
+  let n := lenZ orig in let m := lenZ al in
+  let idx := fun pos => fst (nthZ al pos (0, FNaN)) in let key := fun pos => snd (nthZ al pos (0, FNaN)) in
+  (forall i j, 0 <= i <= j -> j < n -> fle (nthZ orig i FNaN) (nthZ orig j FNaN) = true) ->
+  lenZ V = n ->
+  (forall i j, 0 <= i <= j -> j < n -> fle (nthZ V i FNaN) (nthZ V j FNaN) = true) ->
+  is_nan q = false ->
+  (forall pos, 0 <= pos < m -> 0 <= idx pos < n) ->
+  (forall pos pos', 0 <= pos < pos' -> pos' < m -> idx pos < idx pos') ->
+  (forall pos, 0 <= pos < m -> nthZ V (idx pos) FNaN = key pos) ->
+  (forall j, 0 <= j < n -> (forall pos, 0 <= pos < m -> idx pos <> j) -> nthZ V j FNaN = nthZ orig j FNaN) ->
+  let a := bkl (map snd al) q in
+  (0 < a -> flt (nthZ orig (idx (a - 1)) FNaN) q = false -> (if a <? m then idx a else n) = idx (a - 1) + 1) ->
+  adj_bisect_key_left orig (mkwl al inss) q = bkl V q.
+Proof. intros. apply adj_bisect_exact; assumption. Qed.
+
 (* Proved: total correctness (no exception AND Spec) on the paths that do not renumber partially.
    (i) Appending: the last existing position (0.0 for an empty table) is an integer b,
    every request lies above every existing row (the default request is +inf), b + count + 1 < 2^53: no
@@ -249,6 +327,15 @@ Proof.
   cbv zeta. split; [apply check_pre_sound; vm_compute; reflexivity|].
   split; [intros k [<-|[<-|[]]]; vm_compute; reflexivity|].
   repeat split; vm_compute; reflexivity.
+Qed.
+
+(* non-vacuity of (P-a): the block [1, 1 + 512 ulp) (g = 1022, A = 2^52, i = 9) and 3 keys (3 < 1.14^9) *)
+Example C20_spread_nonvacuous :
+  sparse_enough 9 4 /\ 2 ^ (52 + 1022) <= 2 ^ 52 * 2 ^ 1022 /\ 2 ^ 52 * 2 ^ 1022 + 2 ^ 9 * 2 ^ 1022 <= 2 ^ (53 + 1022) /\
+  flt (of_Z 3) (thr f114 9) = true.
+Proof.
+  split; [apply sparse_enoughb_sound; vm_compute; reflexivity|].
+  split; [apply Z.leb_le; vm_compute; reflexivity|]. split; [apply Z.leb_le; vm_compute; reflexivity | vm_compute; reflexivity].
 Qed.
 
 Example C20_history_nonvacuous :
